@@ -84,7 +84,13 @@ def rnd_desc(rng: random.Random, i: int) -> dict[str, Any]:
                     gone = rng.choice(cand)
                     extra_ns.remove(gone)
                     touched.add(gone)
+                    # often together with the end of a stream: the watcher of the vanishing namespace is between two requests when it is told to stop
+                    brk = [tt, 'break@kopfexamples', rng.choice(['410', 'eof', 'timeout', 'conn'])] if rng.random() < 0.6 else None
+                    if brk and rng.random() < 0.5:
+                        tl.append(brk)
                     tl.append([tt, 'ns_del', gone])
+                    if brk and brk not in tl:
+                        tl.append(brk)
                 else:
                     pool = [x for x in (['ns3', 'ns4', 'ns5', 'nsx'] if mode == 'pattern' else ['ns3', 'ns4']) if x not in extra_ns and x not in touched]
                     if pool:
@@ -130,7 +136,7 @@ def rnd_desc(rng: random.Random, i: int) -> dict[str, Any]:
         opkw['namespaces'] = ['ns1', 'ns3']
     desc: dict[str, Any] = {'seed': rng.randrange(1 << 30), 'handlers': handlers, 'timeline': tl, 'quiet': 6.0, 'horizon': 300.0, 'latency': 0.001, 'namespaces': nss,
                             'settings': settings, 'operator_kwargs': opkw, 'extra_resources': [WIDGETS] if widgets_at_start else [], 'kube': kube_kw, 'end': 'stop', 'exit_wait': 60.0,
-                            'mode': mode, 'fatal': fatal, 'lag': {'values': [0.0, 0.0, 0.002]} if rng.random() < 0.3 else None}
+                            'mode': mode, 'fatal': fatal, 'post_yields': rng.choice([0, 0, 1, 2, 3, 5, 8, 13]), 'lag': {'values': [0.0, 0.0, 0.002]} if rng.random() < 0.3 else None}
     if peering:
         desc['peering'] = {'name': 'default'}
     return desc
